@@ -15,7 +15,8 @@ listen loop discovers it).
 Every error path performs exactly the cleanup the (repaired) code performs:
   * ValidateAndExecuteDirectives / startWithListenerFds drop the hooks the attempt added,
   * startServers closes the listeners the attempt opened or duplicated,
-  * the SIGUSR1 handler purges the hooks before and restores them after a failed reload.
+  * the SIGUSR1 handler purges the hooks before and restores them after a failed reload;
+  * a direct `Instance.Restart` has no handler around it: only the first two apply.
 Servers are listened in the order of `Cfg.sites` (the Go code iterates a map: any order;
 the theorems hold for every order because they hold for every list).
 -/
@@ -32,7 +33,7 @@ inductive Stage where
   | parse        -- syntax error, unknown directive, missing import: nothing has run
   | setupEarly   -- a directive that runs before `on` rejects its arguments (also: missing TLS files)
   | setupLate    -- a directive that runs after `on` rejects its arguments: hooks are already registered
-  | startup      -- an OnStartup callback fails (e.g. the access log cannot be opened)
+  | startup      -- after the directives, not reached by a validation: MakeServers refuses, or an OnStartup callback fails (e.g. the access log cannot be opened)
 deriving DecidableEq, Repr
 
 structure Cfg where
@@ -45,6 +46,7 @@ def Cfg.ports (c : Cfg) : List Nat := c.sites.map (·.port)
 
 inductive Op where
   | load (c : Cfg)       -- Start when nothing runs, else reload through the SIGUSR1 handler
+  | restart (c : Cfg)    -- Start when nothing runs, else `Instance.Restart` called directly (no handler around it)
   | validate (c : Cfg)   -- ValidateAndExecuteDirectives(cfg, nil, true)
   | stop                 -- casket.Stop()
 deriving DecidableEq, Repr
@@ -115,8 +117,21 @@ def reload (busy : List Nat) (s : PState) (c : Cfg) : PState × Res :=
   -- the new instance serves; stop the old one (closes its listeners)
   ({ s with running := true, sites := c.sites, fds := closeAll ll.2 oldPorts, hooks := st.2 }, .ok)
 
+/-- `Instance.Restart` called directly (the API-level reload): nobody purges the registry first, so the hooks of the new
+configuration are registered next to the ones already there, and it is the cleanup of `ValidateAndExecuteDirectives` /
+`startWithListenerFds` alone (`removeEventHooksNotIn` the snapshot taken at entry) that takes them out again when the
+attempt fails — all of them, however many the configuration registered -/
+def restart (busy : List Nat) (s : PState) (c : Cfg) : PState × Res :=
+  let st := setup c s.hooks false
+  if !st.1 then ({ s with hooks := st.2 }, .err) else
+  let oldPorts := s.sites.map (·.port)
+  let ll := listenLoop busy oldPorts s.fds [] c.ports
+  if !ll.1 then ({ s with fds := ll.2, hooks := st.2 - c.hooks }, .err) else
+  ({ s with running := true, sites := c.sites, fds := closeAll ll.2 oldPorts, hooks := st.2 }, .ok)
+
 def step (busy : List Nat) (s : PState) : Op → PState × Res
   | .load c => if s.running then reload busy s c else start busy s c
+  | .restart c => if s.running then restart busy s c else start busy s c
   | .validate c =>
     let st := setup c s.hooks true
     ({ s with hooks := st.2 }, if st.1 then .ok else .err)
